@@ -240,7 +240,7 @@ def run(ctx):
     pairs += compact_n
     # (f) the file-level directive with and without an empty line between it and the package clause (both file-level in Scope.tla)
     hdr = [sc for sc in progcheck.tlc_scenarios(ctx, "Scope", c07.cfg("all" if thorough else "quick"), "c12_scope_hdr")[0]
-           if not sc.get("ld") and sc["slot"] in ("F0", "F0d") and not sc.get("slot2")]
+           if not sc.get("ld") and sc["slot"] in ("F0", "F0d") and sc.get("slot2", "none") == "none"]
     hitems = []
     for i, sc in enumerate(progcheck.sample(hdr, 400 if thorough else 80, ctx.seed)):
         prog, exp, _pos = gen_scope.build_scope(sc, "C12_hdr_%d" % i)
